@@ -278,5 +278,44 @@ func main() {
 				break
 			}
 		}
+		// 5. over the limit: each field within the limit, the pair's encoding not. Whatever the encoder hands out decodes to
+		// the same pair (so it has to refuse these), with the default limit and with a lowered one (ColferSizeMax is a variable
+		// the application may set)
+		M := kv.ColferSizeMax
+		check := func(kl, vl int) {
+			o := &kv.KV{Key: strings.Repeat("k", kl), Val: strings.Repeat("x", vl)}
+			l, lerr := o.MarshalLen()
+			data := safeMarshal([]byte(o.Key), []byte(o.Val))
+			run.Count("c20:limit_grid_pair")
+			if data == nil {
+				run.Count("c20:limit_grid_refused")
+				return
+			}
+			opd := map[string]interface{}{"op": "enc", "klen": kl, "vlen": vl, "limit": kv.ColferSizeMax}
+			if lerr != nil || l != len(data) {
+				viol("declared_length", "declared-length-near-limit", fmt.Sprintf("a pair of %d + %d bytes (limit %d) is encoded into %d bytes, MarshalLen answers %d, %v", kl, vl, kv.ColferSizeMax, len(data), l, lerr), opd)
+			}
+			var back kv.KV
+			uerr := back.UnmarshalBinary(data)
+			if uerr != nil || back.Key != o.Key || back.Val != o.Val {
+				sig := "pair-over-limit-encoded-not-decodable"
+				if len(data) == kv.ColferSizeMax {
+					sig = "encoding-of-exactly-ColferSizeMax-not-decodable"
+				}
+				viol("roundtrip", sig, fmt.Sprintf("a pair of %d + %d bytes is encoded into %d bytes (limit %d) by MarshalBinary but UnmarshalBinary answers %v", kl, vl, len(data), kv.ColferSizeMax, uerr), opd)
+			}
+		}
+		for _, c := range [][2]int{{1, M - 3}, {1, M}, {M/2 + 8, M/2 + 8}, {M - 3, 1}, {M, M}} {
+			check(c[0], c[1])
+		}
+		for _, lim := range []int{24, 200} {
+			kv.ColferSizeMax = lim
+			for kl := 0; kl <= lim+6; kl += 1 + kl/40 {
+				for vl := 0; vl <= lim+6; vl += 1 + vl/40 {
+					check(kl, vl)
+				}
+			}
+		}
+		kv.ColferSizeMax = M
 	}
 }
